@@ -48,6 +48,13 @@ def collect(d, only):
     return items
 
 
+def expected_alarms(d):
+    f = VERIF / d / "EXPECTED-ALARMS.txt"
+    if not f.exists():
+        return set()
+    return {l.split()[0] for l in f.read_text().splitlines() if l.strip() and not l.startswith("#")}
+
+
 def main():
     ap = argparse.ArgumentParser()
     ap.add_argument("--dir", default="selftest/mutants")
@@ -83,6 +90,8 @@ def main():
             got = "violation" if viol else "silent"
             concrete = bool(viol) and not any("no-failing-input-found" in l for l in viol)
             verdict = "ok" if got == expect else "UNEXPECTED"
+            if expect == "silent" and got == "violation" and not concrete and name in expected_alarms(a.dir):
+                verdict = "ok(expected-alarm)"
             rows.append((prop, name, f"{verdict}:{got}{'(concrete)' if concrete else ''} rc={rc} {base}", (viol[0] if viol else "")[:160]))
             print("#", *rows[-1], flush=True)
         finally:
